@@ -82,5 +82,6 @@ Definition run_c07 (w : wire) : wire :=
   | 8 :: w' => run_dec (do nl <- getZ; do nc <- getZ; do a <- getN; do ir <- getZs a; do b <- getN; do jc <- getZs b;
                         do c <- getN; do d <- getWords c; ret {| c_nl := nl; c_nc := nc; c_ir := ir; c_jc := jc; c_data := d |}) w'
                  (fun c => outRes (read_csc c))
+  | 9 :: w' => run_dec (do n <- getN; getZs n) w' (fun p => [suffix_of_path p])
   | _ => [-1]
   end.
